@@ -71,6 +71,17 @@ func (cr *clRun) electedAtColdStart(addr string) {
 	cr.res.stat("cold_start_elections", 1)
 	cr.coldStarts++
 	cr.electedAddrs = append(cr.electedAddrs, addr)
+	// who had registered with the SAME revision count as the elected replica (the controller's own
+	// registry, read on the goroutine that holds the controller lock): the counters could not tell them apart
+	tied := map[string]bool{}
+	if reg, ok := cr.c.ctrl.RegisteredReplicas[rn.ip]; ok {
+		for ip, r := range cr.c.ctrl.RegisteredReplicas {
+			if ip != rn.ip && r.RevCount == reg.RevCount && r.RepState != "rebuilding" {
+				tied["tcp://"+ip+":9502"] = true
+			}
+		}
+	}
+	cr.electionTies = append(cr.electionTies, tied)
 	if cr.abortedWO[addr] {
 		cr.halfRebuiltElections = append(cr.halfRebuiltElections, cr.coldStarts)
 		cr.res.stat("elected_after_interrupted_rebuild", 1)
